@@ -71,6 +71,10 @@ def run(ctx):
     rep.rule("C17.R3", "stored states come out of step_callback", 8)
     rep.rule("C17.R4", "ScipyIVP / ScipyDAE assemblies", 10)
     rep.rule("C17.R5", "residual/Jacobian families of the implicit schemes", 12)
+    rep.rule("C17.R6", "stored states are not modified after they were stored (K11 may-alias analysis)", 8)
+    from .. import alias
+    alias.report(rep, "C17.R6", ctx.repo, [(RT, "Rattle"), (BE, "BackwardEuler"), (MO, "Moreau"), (DSV, "DualStormerVerlet"),
+                                           (DSV, None), (IVP, "ScipyIVP"), (DAE, "ScipyDAE")])
     # ---- R1
     for rel, cname, q, unknown in ((RT, "Rattle", "Rattle.R_x1", {"x1n1"}), (BE, "BackwardEuler", "BackwardEuler.R_x", {"xn1"})):
         fn = ctx.repo.get(rel, q)
@@ -186,6 +190,14 @@ def run(ctx):
         for ap in apps:
             arg = ap.ast.value.args[0]
             okk = False
+            # value-preserving wrappers: x.copy(), np.copy(x), np.array(x), np.asarray(x)
+            while isinstance(arg, ast.Call):
+                if isinstance(arg.func, ast.Attribute) and arg.func.attr == "copy" and not arg.args and dotted(arg.func.value) not in ("np", "numpy"):
+                    arg = arg.func.value
+                elif dotted(arg.func) in ("np.copy", "np.array", "np.asarray") and len(arg.args) == 1:
+                    arg = arg.args[0]
+                else:
+                    break
             if isinstance(arg, ast.Name) and scs:
                 defs = rd.defs_reaching(ap, arg.id)
                 if len(defs) == 1 and defs[0] in scs:
@@ -303,4 +315,21 @@ MUTANTS = [
     dict(id="c17-m10", what="Rattle stores u before step_callback (callback result for u dropped)", file=RT,
          old="            qn1, un1 = self.system.step_callback(tn1, qn1, un1)\n\n            t.append(tn1)", new="            qn1, _ = self.system.step_callback(tn1, qn1, un1)\n\n            t.append(tn1)", expect="C17.R3"),
 ]
-NEUTRAL = []
+MUTANTS += [
+    dict(id="c17-r6-1", canary=True, what="BackwardEuler updates the stored previous state in place instead of allocating the new one", file=BE,
+         old="            qn1 = self.qn + dqn1\n", new="            self.qn += dqn1\n            qn1 = self.qn\n", expect="C17.R6"),
+    dict(id="c17-r6-2", what="Moreau.step computes the midpoint in the buffer of the stored previous coordinates", file=MO,
+         old="        self.qn12 = qn12 = self.qn + 0.5 * dt * self.system.q_dot(self.tn, self.qn, un)",
+         new="        self.qn12 = qn12 = self.qn\n        qn12 += 0.5 * dt * self.system.q_dot(self.tn, self.qn, un)", expect="C17.R6"),
+    dict(id="c17-r6-3", what="Rattle normalises the accepted state a second time after storing it", file=RT,
+         old="            self.qn = qn1\n            self.un = un1\n\n        self.solver_summary.print()",
+         new="            self.qn, self.un = self.system.step_callback(tn1, qn1, un1)\n\n        self.solver_summary.print()", expect="C17.R6"),
+    dict(id="c17-r6-4", what="DualStormerVerlet keeps the stored velocity as work buffer of the next step", file=DSV,
+         old="        self.un = un1.copy()\n", new="        self.un = un1\n        self.un[:] = un1\n", expect="C17.R6"),
+]
+NEUTRAL = [
+    dict(id="c17-n1", canary=True, what="BackwardEuler: in-place update of a private copy of the previous state", file=BE,
+         old="            qn1 = self.qn + dqn1\n", new="            qn1 = self.qn.copy()\n            qn1 += dqn1\n"),
+    dict(id="c17-n2", what="Rattle stores copies of the accepted state", file=RT,
+         old="            q.append(qn1)\n            u.append(un1)\n            la_c.append(0.5", new="            q.append(qn1.copy())\n            u.append(un1.copy())\n            la_c.append(0.5"),
+]
